@@ -2,7 +2,7 @@
    whose behaviours only observe, and every guard valuation, `run` of the back engine is the specification of Spec.v
    applied operation by operation: same behaviour invocations in the same order with the same arguments, same reported
    configuration after every operation, and a result code whose handled bit / zero-ness is the specified outcome. *)
-From Msm Require Import Run Lemmas_C19 Lemmas_Rows Lemmas_Sim Spec Lemmas_SpecBack Lemmas_SpecMp11.
+From Msm Require Import Run Lemmas_C19 Lemmas_Rows Lemmas_Sim Spec Lemmas_SpecBack Lemmas_SpecMp11 Lemmas_Equiv.
 From Coq Require Import Lia.
 
 Lemma snapshot_abs : forall mc rn path, snapshot mc rn path = sp_snapshot mc (abs rn) path.
@@ -27,7 +27,6 @@ Definition op_result_ok (o:op) (res:list titem * option (bool * bool) * conf) (t
 Section BackRun.
 Variable cf : cfg.
 Hypothesis Hbe : c_be cf = Back.
-Hypothesis Hnofct : c_fct cf = false.
 Variable parents : list (option nat).
 Hypothesis Hflat : forall e, nth e parents None = None.
 Hypothesis Hstartq : back_start_queues = true.
@@ -51,15 +50,15 @@ Proof.
   intros Hplain Hok. destruct o as [val plan|plan|e val plan| | | | | | | | |]; try contradiction; cbn [run_op sp_op_gen].
   - (* start *)
     destruct plan; [|contradiction].
-    destruct (sim_run_m _ rn val _ (back_start cf Hbe Hnofct parents Hflat val Hstartq root Hcore fuel rn Hok ltac:(lia)))
+    destruct (sim_run_m _ rn val _ (back_start cf Hbe parents Hflat val Hstartq root Hcore fuel rn Hok ltac:(lia)))
       as (rn' & items & E & Hok' & Hs).
     rewrite E. split; [exact Hok'|]. unfold op_result_ok. unfold sp_start in Hs. rewrite <- Hs. auto.
   - destruct plan; [|contradiction].
-    destruct (sim_run_m _ rn [] _ (back_stop cf Hbe Hnofct parents Hflat [] root Hcore fuel rn Hok))
+    destruct (sim_run_m _ rn [] _ (back_stop cf Hbe parents Hflat [] root Hcore fuel rn Hok))
       as (rn' & items & E & Hok' & Hs).
     rewrite E. split; [exact Hok'|]. unfold op_result_ok. rewrite <- Hs. auto.
   - destruct plan; [|contradiction]. cbn in Hplain.
-    pose proof (back_process_event cf Hbe Hnofct parents Hflat val root Hcore fuel e rn Hok Hfuel Hplain) as Hs.
+    pose proof (back_process_event cf Hbe parents Hflat val root Hcore fuel e rn Hok Hfuel Hplain) as Hs.
     destruct (Hs (Glob [] 0 [] val [] 0)) as (code & rn' & items & E & Hok' & Hi & Hc & Hcode).
     { repeat split. }
     unfold run_m, bind, direct_code. rewrite Hbe. rewrite E. cbn. rewrite app_nil_r.
@@ -225,17 +224,17 @@ Qed.
    events in between, every guard valuation: same behaviour invocations in the same order with the same arguments, same
    active ids at every level after every operation, same handled / rejected status *)
 Theorem back_mp11_same_behaviour : forall cfB cfM md l,
-  c_be cfB = Back -> c_fct cfB = false -> c_be cfM = Mp11 -> c_pol cfB = c_pol cfM ->
+  c_be cfB = Back -> c_be cfM = Mp11 -> c_pol cfB = c_pol cfM ->
   (forall e, nth e (md_parents md) None = None) -> core (md_root md) -> m_hist (md_root md) = HNone ->
   depth (md_root md) + 2 <= default_fuel ->
   back_start_queues = true -> mp11_entry_throw_resets = true ->
   bracketed false l ->
   Forall2 same_step (run cfB md l) (run cfM md l).
 Proof.
-  intros cfB cfM md l HB HnB HM Hpol Hflat Hcore Hh Hfuel Hq Hr Hbr. unfold run.
+  intros cfB cfM md l HB HM Hpol Hflat Hcore Hh Hfuel Hq Hr Hbr. unfold run.
   eapply Forall2_same.
   - apply sp_run_same.
-  - apply (back_run_ops cfB HB HnB (md_parents md) Hflat Hq (md_root md) Hcore default_fuel Hfuel l (init_rnode (md_root md))).
+  - apply (back_run_ops cfB HB (md_parents md) Hflat Hq (md_root md) Hcore default_fuel Hfuel l (init_rnode (md_root md))).
     + eapply bracketed_plain; eauto.
     + apply ok_init.
   - rewrite Hpol.
@@ -281,16 +280,16 @@ Proof.
 Qed.
 
 Theorem back_mp11_same_behaviour_one_start : forall cfB cfM md l,
-  c_be cfB = Back -> c_fct cfB = false -> c_be cfM = Mp11 -> c_pol cfB = c_pol cfM ->
+  c_be cfB = Back -> c_be cfM = Mp11 -> c_pol cfB = c_pol cfM ->
   (forall e, nth e (md_parents md) None = None) -> core (md_root md) -> m_hist (md_root md) = HNone ->
   depth (md_root md) + 2 <= default_fuel ->
   back_start_queues = true -> mp11_entry_throw_resets = true ->
   bracketed false l -> one_start l ->
   Forall2 same_step_strict (run cfB md l) (run cfM md l).
 Proof.
-  intros cfB cfM md l HB HnB HM Hpol Hflat Hcore Hh Hfuel Hq Hr Hbr H1. unfold run.
+  intros cfB cfM md l HB HM Hpol Hflat Hcore Hh Hfuel Hq Hr Hbr H1. unfold run.
   eapply Forall2_same_strict.
-  - apply (back_run_ops cfB HB HnB (md_parents md) Hflat Hq (md_root md) Hcore default_fuel Hfuel l (init_rnode (md_root md))).
+  - apply (back_run_ops cfB HB (md_parents md) Hflat Hq (md_root md) Hcore default_fuel Hfuel l (init_rnode (md_root md))).
     + eapply bracketed_plain; eauto.
     + apply ok_init.
   - rewrite Hpol. rewrite <- sp_run_fresh.
@@ -307,12 +306,12 @@ Definition spec_run (stale:bool) (pol:nat) (md:mdef) (l:list op) :=
   sp_run stale pol (md_root md) (abs (init_rnode (md_root md))) l.
 
 Theorem back_run_is_spec : forall cf md l,
-  c_be cf = Back -> c_fct cf = false -> flat_events md -> core (md_root md) -> depth (md_root md) + 2 <= default_fuel ->
+  c_be cf = Back -> flat_events md -> core (md_root md) -> depth (md_root md) + 2 <= default_fuel ->
   back_start_queues = true -> Forall plain_op l ->
   Forall2 step_ok (spec_run false (c_pol cf) md l) (run cf md l).
 Proof.
-  intros cf md l HB HnB Hflat Hcore Hfuel Hq Hpl. unfold run, spec_run.
-  apply (back_run_ops cf HB HnB (md_parents md) Hflat Hq (md_root md) Hcore default_fuel Hfuel l (init_rnode (md_root md)) Hpl).
+  intros cf md l HB Hflat Hcore Hfuel Hq Hpl. unfold run, spec_run.
+  apply (back_run_ops cf HB (md_parents md) Hflat Hq (md_root md) Hcore default_fuel Hfuel l (init_rnode (md_root md)) Hpl).
   apply ok_init.
 Qed.
 
@@ -349,4 +348,75 @@ Lemma ex_core_ok : core (md_root ex_core_md).
 Proof.
   cbn. repeat first [ split | discriminate | reflexivity | (eexists; split; [reflexivity|discriminate])
                     | (left; reflexivity) | (right; eexists; reflexivity) | apply Forall_nil | apply Forall_cons ].
+Qed.
+
+(* ---- every configuration ---- *)
+Definition is_mp11 (cf:cfg) : bool := match c_be cf with Mp11 => true | _ => false end.
+(* what a configuration needs of the definition: back11 cannot compile internal tables (and finding F7 separates it
+   from back where it can); the backmp11 theorem is for an outermost machine without history of its own *)
+Definition cfg_fits (cf:cfg) (md:mdef) : Prop :=
+  match c_be cf with Back => True | Back11 => no_internal (md_root md) | Mp11 => m_hist (md_root md) = HNone end.
+
+Theorem run_is_spec : forall cf md l,
+  flat_events md -> core (md_root md) -> cfg_fits cf md -> depth (md_root md) + 2 <= default_fuel ->
+  back_start_queues = true -> mp11_entry_throw_resets = true -> bracketed false l ->
+  Forall2 step_ok (spec_run (is_mp11 cf) (c_pol cf) md l) (run cf md l).
+Proof.
+  intros cf md l Hflat Hcore Hfit Hfuel Hq Hr Hbr. unfold cfg_fits, is_mp11 in *.
+  destruct cf as [be fct pl qb]. cbn [c_be c_pol] in *. destruct be.
+  - apply (back_run_is_spec (Cfg Back fct pl qb)); auto. eapply bracketed_plain; eauto.
+  - rewrite <- (run_back_back11 fct pl qb md l Hfit).
+    apply (back_run_is_spec (Cfg Back fct pl qb)); auto. eapply bracketed_plain; eauto.
+  - apply (mp11_run_is_spec (Cfg Mp11 fct pl qb)); auto.
+Qed.
+
+Lemma sp_op_gen_conf2 s1 s2 pol mc o c : snd (sp_op_gen s1 pol mc o c) = snd (sp_op_gen s2 pol mc o c).
+Proof.
+  destruct o; cbn [sp_op_gen]; try reflexivity. unfold sp_start_obs.
+  destruct (sp_enter mc (Evt EV_INIT 0) (c_set_act c (m_inits mc))); reflexivity.
+Qed.
+Lemma sp_run_same_gen s1 s2 pol mc : forall l c, Forall2 same_spec (sp_run s1 pol mc c l) (sp_run s2 pol mc c l).
+Proof.
+  induction l as [|o t IH]; intros c; cbn [sp_run]; [constructor|].
+  pose proof (sp_op_gen_conf2 s1 s2 pol mc o c) as Hc.
+  destruct (sp_op_gen s1 pol mc o c) as [[i1 o1] c1] eqn:E1. destruct (sp_op_gen s2 pol mc o c) as [[i2 o2] c2] eqn:E2.
+  cbn [snd] in Hc. subst c2. constructor; [|apply IH].
+  unfold same_spec. cbn [fst snd]. split; [reflexivity|].
+  destruct o; cbn [sp_op_gen] in E1, E2; try (rewrite E1 in E2; inversion E2; subst; auto; fail).
+  unfold sp_start_obs in E1, E2. destruct (sp_enter mc (Evt EV_INIT 0) (c_set_act c (m_inits mc))) as [items cc].
+  inversion E1; inversion E2; subst. split; [reflexivity|]. right. split; [reflexivity|].
+  rewrite !rev_app_distr. cbn [rev app]. eauto 10.
+Qed.
+
+(* any two configurations - back, back11, backmp11; favor_runtime_speed or favor_compile_time; any queue option - with
+   the same switch policy *)
+Theorem configs_same_behaviour : forall cf1 cf2 md l,
+  c_pol cf1 = c_pol cf2 -> flat_events md -> core (md_root md) -> cfg_fits cf1 md -> cfg_fits cf2 md ->
+  depth (md_root md) + 2 <= default_fuel -> back_start_queues = true -> mp11_entry_throw_resets = true ->
+  bracketed false l ->
+  Forall2 same_step (run cf1 md l) (run cf2 md l).
+Proof.
+  intros cf1 cf2 md l Hpol Hflat Hcore Hf1 Hf2 Hfuel Hq Hr Hbr.
+  eapply Forall2_same.
+  - apply (sp_run_same_gen (is_mp11 cf1) (is_mp11 cf2) (c_pol cf1) (md_root md) l (abs (init_rnode (md_root md)))).
+  - apply run_is_spec; auto.
+  - rewrite Hpol. apply run_is_spec; auto.
+Qed.
+
+(* two configurations of the same family (both backmp11, or both back / back11), or any two on a history with one
+   start(): nothing but the numeric result code can differ *)
+Theorem configs_same_behaviour_strict : forall cf1 cf2 md l,
+  c_pol cf1 = c_pol cf2 -> flat_events md -> core (md_root md) -> cfg_fits cf1 md -> cfg_fits cf2 md ->
+  depth (md_root md) + 2 <= default_fuel -> back_start_queues = true -> mp11_entry_throw_resets = true ->
+  bracketed false l -> (is_mp11 cf1 = is_mp11 cf2 \/ one_start l) ->
+  Forall2 same_step_strict (run cf1 md l) (run cf2 md l).
+Proof.
+  intros cf1 cf2 md l Hpol Hflat Hcore Hf1 Hf2 Hfuel Hq Hr Hbr Hs.
+  assert (E : spec_run (is_mp11 cf1) (c_pol cf1) md l = spec_run (is_mp11 cf2) (c_pol cf1) md l).
+  { destruct Hs as [Hs|Hs]; [rewrite Hs; reflexivity|]. unfold spec_run.
+    assert (Hi : c_act (abs (init_rnode (md_root md))) = m_inits (md_root md)) by (destruct (md_root md); reflexivity).
+    destruct (is_mp11 cf1), (is_mp11 cf2); try reflexivity; [|symmetry]; apply sp_run_fresh; assumption. }
+  eapply Forall2_same_strict.
+  - apply run_is_spec; auto.
+  - rewrite E, Hpol. apply run_is_spec; auto.
 Qed.
